@@ -23,8 +23,8 @@ import Asn1Verif.Front.ParserBase
   tokens of this model carry no location; the model assumes the **canonical layout** in which
   consecutive tokens of a literal are separated by exactly one space on one line (that is what
   `Front/Printer.lean` renders and what the `parse` stream sends).  Under that layout the gap
-  before every token after the first is one space, except that a *separator* in first position
-  contributes nothing itself (`token.text().unwrap_or_default()`) and makes the next gap two.
+  before every token after the first is one space; the first token (whatever it is, also the closing
+  delimiter: the empty literal) starts the content without a gap (`prev_loc` is its own location).
 -/
 namespace Asn1Verif.Front.Syn
 open Except
@@ -75,12 +75,13 @@ def maybeReadConstants {R : Type} (parser : Token → FR R) (fuel : Nat) (ts : L
 
 /-! ### INTEGER — `Integer::try_from` -/
 
-/-- a range bound: a text token other than `kw` (`MIN` resp. `MAX`) is a literal when it parses as
-    `i64`, else a reference; everything else (also a separator token) is `None` -/
+/-- a range bound: a text token other than `kw` (`MIN` resp. `MAX`, compared exactly: `min`, `Max`
+    are value references) is a literal when it parses as `i64`, else a reference; everything else
+    (also a separator token) is `None` -/
 def rangeBound (t : Token) (kw : String) : Option URange :=
   match t with
   | .text s =>
-    if eqIC s kw then none
+    if s = kw then none
     else match parseI64 s with
       | some i => some (.lit i)
       | none => some (.ref s)
@@ -119,7 +120,7 @@ def parseInteger (fuel : Nat) (ts : List Token) :
 def sizeBound (t : Token) (kw : String) (drop : Nat) : Option USz :=
   match t with
   | .text s =>
-    if eqIC s kw then none
+    if s = kw then none
     else match parseU64 s with
       | some n => if n = drop then none else some (.lit n)
       | none => some (.ref s)
@@ -304,10 +305,6 @@ def maybeReadWithComponents (fuel : Nat) (ts : List Token) : FR (List Token) :=
 
 /-! ### literals — `read_literal`, `read_string_literal`, `read_hex_or_bit_string_literal` -/
 
-def Token.chars : Token → List Char
-  | .text s => s.toList
-  | .sep c => [c]
-
 /-- the `loop` of `read_string_literal`; `gap` = number of spaces the column arithmetic inserts
     before the next token (canonical layout, see the header) -/
 def stringLoop (delim : Char) : List Token → Nat → FR (List Char × List Token)
@@ -318,16 +315,14 @@ def stringLoop (delim : Char) : List Token → Nat → FR (List Char × List Tok
       let (cs, r') ← stringLoop delim r 1
       pure (List.replicate gap ' ' ++ t.chars ++ cs, r')
 
-/-- `read_string_literal(iter, delimiter)`: the literal *with* both delimiters -/
+/-- `read_string_literal(iter, delimiter)`: the literal *with* both delimiters.  `prev_loc` starts
+    at the location of the first token after the opening delimiter (`peek_or_err`), so that token —
+    text, separator or already the closing delimiter — is handled by the loop with no gap -/
 def readStringLiteral (delim : Char) (ts : List Token) : FR (List Char × List Token) := do
   let ts ← nextSepEq delim ts
-  let (first, ts) ← nextOrErr ts
-  -- the first token is taken whatever it is, also the closing delimiter
-  let (firstText, gap) := match first with
-    | .text s => (s.toList, 1)
-    | .sep _ => ([], 2)
-  let (cs, ts) ← stringLoop delim ts gap
-  pure (delim :: firstText ++ cs ++ [delim], ts)
+  let _ ← peekOrErr ts
+  let (cs, ts) ← stringLoop delim ts 0
+  pure (delim :: cs ++ [delim], ts)
 
 /-- `read_hex_or_bit_string_literal` -/
 def readHexOrBitStringLiteral (ts : List Token) : FR (List Char × List Token) := do
